@@ -248,7 +248,8 @@ def run_piggyback(prop, tier, seed, only=None):
         "hashseed": os.environ.get("PYTHONHASHSEED", ""), "src": src, "evaluations": 0, "classes": {},
         "nontrivial_hashes": [], "samples": [], "inconclusive_cases": [], "case_errors": [], "exhausted": [],
         "time_capped": False, "n_case_errors": 0,
-        "piggyback": {"tests_run": plugin.tests, "outcomes": plugin.outcomes, "pytest_exit": int(rc),
+        "piggyback": {"tests_run": plugin.tests, "tests_skipped_by_monitors_because_mocked": plugin.mocked_tests,
+                      "outcomes": plugin.outcomes, "pytest_exit": int(rc),
                       "monitor_evaluations": int(sum(mon.hits.values())),
                       "monitor_verdicts": int(sum(mon.judged.values())),
                       "out_of_domain": int(sum(mon.ood.values()))},
